@@ -704,3 +704,168 @@ def r_suffix(prog, R, rid):
                    "the escaped dot is taken for a separator, the name is cut to 'a\\' + pointer, and the write fails with EBADNAME (a legal name that cannot be written)")
         else:
             r.ok(k, f.loc(el))
+
+
+BLANK_FORBIDDEN = {"ARES_RR_CAA_TAG": "RFC 8659 4.1: the tag length is at least 1"}
+
+
+def r_blank(prog, R, rid):
+    r = R.rule(rid, "a character-string the RFCs allow to be empty is parsed with blank_allowed: HINFO CPU/OS (RFC 1035), NAPTR FLAGS/SERVICES/REGEXP (RFC 3403); only the CAA tag must be "
+               "non-empty -- otherwise a well-formed message (a non-terminal NAPTR has an empty SERVICES field) is rejected as a whole", floor=5,
+               analysis="A-TAB: constant blank_allowed argument per record key, frozen RFC table of the keys that must not be blank")
+    n = 0
+    for f in sorted(prog.funcs.values(), key=lambda x: x.key):
+        if f.file != PARSE_C:
+            continue
+        for b, i, c in f.calls():
+            if c.get("callee") != "ares_dns_parse_and_set_dns_str" or len(c.get("args", [])) < 5:
+                continue
+            key = name_of_const(c["args"][3])
+            flag = name_of_const(c["args"][4])
+            if key is None:
+                continue
+            n += 1
+            k = "fn=%s key=%s blank_allowed" % (f.name, key)
+            want = "ARES_FALSE" if key in BLANK_FORBIDDEN else "ARES_TRUE"
+            if flag == want:
+                r.ok(k, f.loc(c["ln"]))
+            elif flag is None:
+                r.broke("%s: blank_allowed for %s is not a constant" % (f.name, key))
+            elif want == "ARES_TRUE":
+                r.viol(k, f.name, f.loc(c["ln"]), "%s parses %s with blank_allowed = %s: an empty string is legal there, the whole message is refused with EBADRESP" % (f.name, key, flag))
+            else:
+                r.viol(k, f.name, f.loc(c["ln"]), "%s parses %s with blank_allowed = %s although %s" % (f.name, key, flag, BLANK_FORBIDDEN[key]))
+    r.require(n >= 5, "fewer character-string fields than confirmed by hand (%d)" % n)
+
+
+def r_caaval(prog, R, rid):
+    r = R.rule(rid, "the writer refuses an empty CAA value as long as the parser does: ares_dns_write_rr_caa cannot return success (or go on to append) with a value length of 0 while "
+               "ares_dns_parse_rr_caa fails on a remaining length of 0", floor=1,
+               analysis="sibling agreement: parser guard on the remaining length vs forward analysis (length 0?) of the writer up to every non-failing return")
+    pf = prog.func("ares_dns_parse_rr_caa")
+    rejects = False
+    for b in pf.blocks.values():
+        br = pf.branch(b)
+        if not br:
+            continue
+        for pol, tgt in ((True, br[1]), (False, br[2])):
+            if tgt is None:
+                continue
+            for c, p_ in atoms(br[0], pol):
+                op, l, rr = norm_cmp(c, p_)
+                if is_var(strip(l)) and ((op == "==" and rr is not None and const_val(rr) == 0) or op == "false"):
+                    srcs = [strip(x[3]) for x in _assignments(pf, strip(l)["n"])]
+                    if any(s_ is not None and s_.get("k") == "call" and (pf.call_by_id(s_["id"])[2] if s_.get("ref") else s_).get("callee") == "ares_dns_rr_remaining_len" for s_ in srcs):
+                        blk = pf.blocks[tgt]
+                        if any((el["k"] == "ret" and name_of_const(el.get("e")) not in (None, "ARES_SUCCESS")) or (el["k"] == "asg" and is_var(strip(el["e"]["l"]), "status") and name_of_const(el["e"].get("r")) not in (None, "ARES_SUCCESS")) for el in blk.els):
+                            rejects = True
+    wf = prog.func("ares_dns_write_rr_caa")
+    lv = None
+    site = None
+    for b, i, c in wf.calls():
+        if c.get("callee") == "ares_dns_rr_get_bin" and len(c.get("args", [])) == 3 and "ARES_RR_CAA_VALUE" in render(c["args"][1]):
+            a = strip(c["args"][2])
+            if a is not None and a.get("k") == "un" and a["op"] == "&" and is_var(strip(a["e"])):
+                lv, site = strip(a["e"])["n"], (b.id, i)
+    if not r.require(lv is not None, "ares_dns_write_rr_caa: length variable of the CAA value not found"):
+        return
+    k = "writer and parser agree on the empty CAA value"
+    if not rejects:
+        r.ok(k, pf.loc(pf.ln), "the parser accepts an empty value: nothing for the writer to refuse")
+        return
+
+    def transfer(st, blk, i, el):
+        if el["k"] == "call" and (blk.id, i) == site:
+            return ["?"]
+        return [st]
+
+    def refine(st, cond, pol, blk):
+        for c, p_ in atoms(cond, pol):
+            op, l, rr = norm_cmp(c, p_)
+            if not is_var(strip(l), lv):
+                continue
+            zero = True if op == "false" else False if op == "truth" else None
+            if rr is not None and const_val(rr) == 0:
+                zero = {"==": True, "!=": False, ">": False, "<=": True}.get(op, zero)
+            if rr is not None and const_val(rr) == 1:
+                zero = {"<": True, ">=": False}.get(op, zero)
+            if zero is True:
+                if st == "NZ":
+                    return None
+                st = "Z"
+            elif zero is False:
+                if st == "Z":
+                    return None
+                st = "NZ"
+        return st
+    at = forward_states(wf, "-", transfer, refine)
+    bad = None
+    for b, i, el in wf.returns():
+        nm = name_of_const(el.get("e"))
+        if nm is not None and nm != "ARES_SUCCESS":
+            continue
+        for st in at.get((b.id, i), set()):
+            if st in ("Z", "?"):
+                bad = el
+    if bad is not None:
+        r.viol(k, wf.name, wf.loc(bad), "ares_dns_write_rr_caa can finish without failing while the CAA value has length 0; ares_dns_parse_rr_caa rejects a record whose value is empty: the message is "
+               "written successfully and does not parse back (ARES_EBADRESP)")
+    else:
+        r.ok(k, wf.loc(wf.ln))
+
+
+def r_suffix_exact(prog, R, rid):
+    import evalx
+    r = R.rule(rid, "the escape test in front of a compression match is exact: the '.' before the matched suffix counts as a separator iff it is preceded by an even number of "
+               "backslashes, wherever in the name it stands (also at its very beginning)", floor=1,
+               analysis="exact evaluation (evalx.run_cfg over a modelled string) of the fragment between the separator test and the acceptance of a match, for prefixes of 0..4 backslashes with and without characters in front")
+    f = prog.func("ares_nameoffset_find")
+    acc = [(b, i, el) for b, i, el in f.elements() if el["k"] == "asg" and is_var(strip(el["e"]["l"])) and strip(el["e"]["l"])["n"].startswith("longest") and not is_null(el["e"].get("r"))]
+    if not r.require(len(acc) == 1, "ares_nameoffset_find: acceptance of a match not found"):
+        return
+    ab, ai, ael = acc[0]
+    # the separator test: name[<prefix> - 1] compared with '.'
+    start, namev, prefv = None, None, None
+    for b in f.blocks.values():
+        br = f.branch(b)
+        if not br:
+            continue
+        for pol, tgt in ((True, br[1]), (False, br[2])):
+            for c, p_ in atoms(br[0], pol):
+                op, l, rr = norm_cmp(c, p_)
+                ls = strip(l)
+                if op == "==" and rr is not None and const_val(rr) == 46 and ls is not None and ls.get("k") == "idx" and is_var(strip(ls["b"])):
+                    vs_ = [v["n"] for v in vars_in(ls["i"])]
+                    if len(vs_) == 1:
+                        start, namev, prefv = tgt, strip(ls["b"])["n"], vs_[0]
+    if not r.require(start is not None, "ares_nameoffset_find: separator test name[prefix - 1] == '.' not found"):
+        return
+    locs = {v["n"] for b, i, el in f.elements() if el["k"] == "decl" for v in el["vars"] if "*" not in (v.get("ty") or "")}
+    bad = None
+    n = 0
+    try:
+        for lead in (b"", b"a", b"ab"):
+            for k in range(0, 5):
+                name = lead + b"\\" * k + b".example.com"
+                prefix_len = len(lead) + k + 1
+                env = {namev: name, prefv: prefix_len}
+                for v in locs:
+                    env.setdefault(v, 0)
+                env[prefv] = prefix_len
+                res = evalx.run_cfg(f, env, start=start, max_steps=200, stop_at={(ab.id, ai)})
+                accepted = res[0] == "stop"
+                n += 1
+                if accepted and k % 2 == 1 and bad is None:      # refusing a genuine boundary only costs compression, it is not reported
+                    bad = (name, k, accepted)
+    except evalx.Unknown as e:
+        r.broke("ares_nameoffset_find: escape test not interpretable: %s" % e)
+        return
+    r.info["strings_evaluated"] = n
+    kk = "escaped dot recognised at every position"
+    if bad:
+        name, k, accepted = bad
+        r.viol(kk, f.name, f.loc(ael), "for the name %r (the dot in front of 'example.com' is preceded by %d backslash(es)) the match is %s: %s" % (
+            name.decode(), k, "accepted" if accepted else "refused",
+            "the dot is escaped and belongs to the label, the name is cut inside a label and the write fails (or writes another name)" if accepted else "a genuine label boundary is not used for compression"))
+    else:
+        r.ok(kk, f.loc(ael), "%d strings" % n)
